@@ -176,3 +176,12 @@ CHECKS["C05"] = dict(
     level_text="Generated operation/fault scripts against a real responder with exact quiescence; the end-state oracle (one outcome, nothing retained) is checked after every script. Two defects found and fixed, two recorded.",
     level_note="Intra-step goroutine interleavings are not controlled (GOMAXPROCS=1 makes them repeatable, not exhaustive).",
     technique="rapid fault-script testing of a real responder in a synctest bubble with an end-state oracle", design_ref="DESIGN.md §4 C05")
+
+CHECKS["C23"] = dict(
+    pkg="props/c23", level="exploration", gomaxprocs=1,
+    rule="two scenarios. (a) a real requestor and a real responder exchange 1-4 requests (DAG root or inner block roots, generated store split) while a generated list of up to 34 operations owns every boundary event: issue request i, deliver the oldest message of a chosen direction, requestor API pause / unpause / cancel, responder API pause / unpause / cancel, open a per-request storage gate on either side, let 150 ms pass; each request may pause itself from the requestor's incoming-block hook or the responder's outgoing-block hook at block 1-4, or be held Running by a storage gate at its n-th read on either side; outgoing / incoming worker limits from {default,1,2}, per-peer limit {unset,1}. (b) the responder-lifecycle scenario of C05 (two scripted requestors, send / connect faults, stalled sends, disconnects). After EVERY operation the harness waits for exact quiescence and reads PeerState for each peer: OutgoingState.Diagnostics() and IncomingState.Diagnostics() must be empty (queued <=> pending, running <=> active, paused / completing in neither, no task without state). At the end everything paused is resumed and every gate opened; when no request is listed any more, Stats() must report 0 active, 0 pending requests and 0 allocated, 0 pending bytes on both sides. Non-trivial: some quiescent point lists a paused or completing request beside a queued or running one, or lists several requests with one waiting in the pending queue.",
+    assumptions=_LIFE_ASSUME,
+    quick=dict(shards=2, timeout=400), thorough=dict(shards=16, timeout=3000),
+    level_text="Generated operation lists with the state/queue agreement checked at every quiescent point (typically 10-40 per case), not at hand-picked moments. One defect (cancelled queued request keeps its task) found and fixed.",
+    level_note="Quiescence is synctest's: every goroutine of both instances durably blocked. Trusts peerstate.Diagnostics as the definition of agreement (it is the property's own observation point).",
+    technique="rapid operation-sequence testing in a synctest bubble with an invariant checked at every quiescent point", design_ref="DESIGN.md §4 C23")
